@@ -42,3 +42,8 @@ func vfSyncHook(cut int, f func())
 // c12NewFile: the descriptor getConnDupFd yields for party w. Symbolic run: an empty os.File whose
 // Fd is answered by a stub (10 / 20); native replay: one end of a real pipe.
 func c12NewFile(w int) *os.File { return &os.File{} }
+
+// conflicting-access check (engine/sym/race.go)
+func vfRaceBegin(tag int)
+func vfRaceEnd()
+func vfRaceCheck(id string)
